@@ -180,11 +180,13 @@ def run(ctx: common.Ctx):
         "resample coefficients 0, 1 and interior values; non-trivial = every case"
     )
     ctx.assumptions += [
+        "low-rank update metrics are generated with factors of full column rank (PositiveDefiniteLowRankUpdateMatrix.sqrt "
+        "raises LinAlgError for rank-deficient factors: known finding, C10)",
         "a zero-mean Gaussian is determined by its covariance; linear images of Gaussians are Gaussian (trusted fact)",
         "the implementation's sqrt factor and Crank-Nicolson coefficient enter the model as data",
     ]
     cases = []
-    per = ctx.n(6, 60)
+    per = ctx.n(6, 150)
     for fam in zoo.FAMILIES:
         kinds = zoo.EUCLID_METRICS if fam in ("euclid", "gauss", "constr-haus", "constr-gram", "gconstr") else [None]
         for mk in kinds:
@@ -199,7 +201,7 @@ def run(ctx: common.Ctx):
             ctx.violation(f"{sp['family']} momentum foreign exception {type(e).__name__}",
                           f"{sp['family']} metric={sp.get('metric', {}).get('kind')}: {type(e).__name__}: {e}", {"case": case})
             continue
-        ctx.case({"family": sp["family"], "metric": sp.get("metric", {}).get("kind"), "coeff": case["coeff"], "n": sp["n"]}, nontrivial=True)
+        ctx.case({"family": sp["family"], "metric": sp.get("metric", {}).get("kind"), "coeff": case["coeff"], "n": sp["n"], "q": case["q"], "z": case["z"]}, nontrivial=True)
         ctx.count(sp["family"] + (":" + sp["metric"]["kind"] if "metric" in sp else ""))
         ctx.count(f"coeff={case['coeff']}")
         for sig, text in bad:
